@@ -60,6 +60,13 @@ def gen_case(rng):
         dims = rng.sample(["cat", "reg"], rng.randint(0, 2))
         td = rng.random() < 0.8
         preaggs.append(dict(name="r%d" % k, measures=ms, dimensions=dims, time_dimension="ts" if td else None, granularity=rng.choice(["hour", "day", "day", "week", "month"]) if td else None))
+    for p in preaggs:
+        # a declared build range: whatever the materialisation does with it, a routed answer must still equal the base answer
+        if p["time_dimension"] and rng.random() < 0.2:
+            if rng.random() < 0.7:
+                p["build_range_start"] = "TIMESTAMP '2024-02-%02d 00:00:00'" % rng.randint(1, 20)
+            if rng.random() < 0.5:
+                p["build_range_end"] = "TIMESTAMP '2024-03-%02d 00:00:00'" % rng.randint(1, 20)
     pool = sorted(set(m for p in preaggs for m in p["measures"])) if rng.random() < 0.85 else sorted(MEAS)
     mets = rng.sample(pool, min(len(pool), rng.randint(1, 3)))
     dims = []
@@ -78,6 +85,8 @@ def gen_friendly(rng):
     pg = rng.choice(["hour", "day", "day", "week", "month"])
     ms = rng.sample(["rev", "cntv", "mx", "mn", "cnt", "esum", "avg_v", "count_v"], rng.randint(1, 5))
     case["preaggs"] = [dict(name="r0", measures=ms, dimensions=dims, time_dimension="ts", granularity=pg)] + case["preaggs"][1:]
+    if rng.random() < 0.15:
+        case["preaggs"][0]["build_range_start"] = "TIMESTAMP '2024-02-%02d 00:00:00'" % rng.randint(1, 20)
     for i, p in enumerate(case["preaggs"]):
         p["name"] = "r%d" % i
     case["mets"] = rng.sample(ms, rng.randint(1, min(3, len(ms))))
